@@ -1,7 +1,7 @@
 """writes MANIFEST.json"""
 import json, os, subprocess
 ROOT = os.path.dirname(os.path.dirname(os.path.abspath(__file__)))
-hook = subprocess.run(['git', '-C', '/repo', 'log', '--format=%h', '--grep', '^verif:'], stdout=subprocess.PIPE).stdout.decode().split()
+hook = subprocess.run(['git', '-C', '/repo', 'log', '--format=%h', '--grep', '^verif'], stdout=subprocess.PIPE).stdout.decode().split()
 TB = ('trusted base: the stand-in codec runtimes under /verif/runtimes (API surface of the emitted code with the obvious meaning of each name; real bytes/byteorder crates, real testify, '
       'stdlib unittest; Netty ByteBuf, JUnit4, gtest, Wireshark Lua API are minimal stand-ins), the harness-owned reference wire model, the target tool-chains installed in the image')
 C = {
